@@ -145,8 +145,11 @@ func (t TaskSpec) Pod() *v1.Pod {
 	}
 	prio := int32(t.Prio)
 	pod.Spec.Priority = &prio
+	// GetPodPreemptable defaults to true when the annotation is absent: always write it
 	if t.Preemptable {
 		pod.Annotations["volcano.sh/preemptable"] = "true"
+	} else {
+		pod.Annotations["volcano.sh/preemptable"] = "false"
 	}
 	if t.Node != 0 {
 		pod.Spec.NodeName = NodeName(t.Node)
